@@ -205,6 +205,23 @@ def property_theorems(prop):
     return names, assum, examples, out
 
 
+def coqchk(prop):
+    """independent re-check of the compiled property file and everything it depends on
+    (thorough tier); returns the report text. Cached per model hash."""
+    os.makedirs(CACHE, exist_ok=True)
+    cpath = os.path.join(CACHE, "coqchk-%s-%s.txt" % (prop, model_hash()))
+    if os.path.exists(cpath):
+        return open(cpath).read()
+    with Lock("coq"):
+        rc, out = run(["sh", "-c", "ulimit -v 12000000; exec timeout 1500 coqchk -silent -o -Q theories OrxPar OrxPar.Properties.%s" % prop],
+                      cwd=COQ, timeout=1600)
+    if rc != 0:
+        raise BuildError("coqchk rejects Properties/%s" % prop, out)
+    with open(cpath, "w") as f:
+        f.write(out)
+    return out
+
+
 def assumptions_report():
     """Parses the output of theories/Properties*.v 'Print Assumptions' commands, as logged
     by the build into coq/assumptions.log (written by `make` through the Properties files)."""
